@@ -202,6 +202,10 @@ func errorLeadsToExit(fn *ssa.Function, e ssa.Value) bool {
 		wrote, exited := false, false
 		for _, bi := range branch.Instrs {
 			if cc := callOf(bi); cc != nil {
+				// a helper that reports and terminates
+				if sc := cc.StaticCallee(); sc != nil && len(sc.Blocks) > 0 && reportsAndExits(sc) {
+					exited = true
+				}
 				if isLibCall(cc, "os", "File", "WriteString") || isLibCall(cc, "os", "File", "Write") || isLibCall(cc, "fmt", "", "Fprintln") || isLibCall(cc, "fmt", "", "Fprintf") {
 					wrote = true
 				}
@@ -639,4 +643,28 @@ func validated(P *Program, req consumerReq) (bool, string) {
 		}
 	}
 	return true, ""
+}
+
+// reportsAndExits: fn writes a diagnostic and then calls os.Exit with a
+// non-zero constant on every path (the exit dominates every return).
+func reportsAndExits(fn *ssa.Function) bool {
+	var exit, write ssa.Instruction
+	eachInstr(fn, func(_ *ssa.BasicBlock, _ int, in ssa.Instruction) {
+		cc := callOf(in)
+		if cc == nil {
+			return
+		}
+		if isLibCall(cc, "os", "", "Exit") {
+			if k, isC := constInt(cc.Args[0]); isC && k != 0 {
+				exit = in
+			}
+		}
+		if isLibCall(cc, "os", "File", "WriteString") || isLibCall(cc, "os", "File", "Write") || isLibCall(cc, "fmt", "", "Fprintln") || isLibCall(cc, "fmt", "", "Fprintf") || isLibCall(cc, "fmt", "", "Fprint") {
+			write = in
+		}
+	})
+	if exit == nil || write == nil || !dominatesInstr(write, exit) {
+		return false
+	}
+	return dominatesAllReturns(exit)
 }
